@@ -20,6 +20,7 @@
 //  allocator calls and faults go to Registry::side instead and are printed as final lines.
 #pragma once
 #include "vstd.hpp"
+#include <new>
 
 namespace vs { namespace rcu {
 enum CState : int { ST_ALLOC = 0, ST_CONSTR = 1, ST_DESTR = 2, ST_FREED = 3 };
@@ -75,6 +76,18 @@ inline void touched(const void* p)
     if (i >= 0 && reg().cells[i].state != ST_CONSTR) fault(i, reg().cells[i].base, 3);
 }
 
+// per-thread "the next allocation fails" flag (allocation failure as a fault; set and cleared by the driver
+// around one library call)
+inline bool& fail_next()
+{
+    static thread_local bool f = false;
+    return f;
+}
+struct FailNext {
+    explicit FailNext(bool on) { fail_next() = on; }
+    ~FailNext() { fail_next() = false; }
+};
+
 template<class U, class = void>
 struct is_record: std::false_type {};
 template<class U>
@@ -94,6 +107,11 @@ struct VAlloc {
     U* allocate(std::size_t n)
     {
         if (active()) S().visible(K_ALLOC, nullptr);
+        if (fail_next()) {  // armed by the driver for this operation: the allocation fails (K_THROW 2 = bad_alloc)
+            fail_next() = false;
+            if (active()) S().emit(K_THROW, nullptr, 2);
+            throw std::bad_alloc();
+        }
         char* p = (char*)::operator new(n * sizeof(U));
         std::memset(p, 0xCD, n * sizeof(U));
         int kind = is_record<U>::value ? 2 : 1;
